@@ -16,6 +16,7 @@ from pynenc.exceptions import RetryError
 PROBE: Any = None  # callable(event, invocation_id, payload) set by the harness
 GLOBAL_APP: Any = None  # fallback app for sync mode (no runner thread sets the context)
 ATTEMPTS: dict[str, int] = {}  # executions per program node name
+INV_ATTEMPTS: dict[str, int] = {}  # executions per invocation (the attempt number a body sees)
 SLEEP: Any = None  # callable(seconds) -> simulated work
 
 
@@ -29,6 +30,16 @@ class SimRetriable(Exception):
 
 def reset() -> None:
     ATTEMPTS.clear()
+    INV_ATTEMPTS.clear()
+
+
+def _attempt(task_name: str, node: str) -> int:
+    """Counts one execution of `node`; returns the attempt number *of this
+    invocation* (1 on first execution, 2 after one retry, ...)."""
+    ATTEMPTS[node] = ATTEMPTS.get(node, 0) + 1
+    key = _inv_id(task_name) or f"?{node}"
+    INV_ATTEMPTS[key] = INV_ATTEMPTS.get(key, 0) + 1
+    return INV_ATTEMPTS[key]
 
 
 def _app() -> Any:
@@ -84,10 +95,11 @@ def prog(spec: dict) -> int:
     spec = {"n": name, "v": int, "kids": [spec...], "group": bool, "work": float,
             "fail": [attempt numbers that raise], "exc": "retry"|"retriable"|"value"|"sim",
             "fail_after_kids": bool}
-    Returns v + sum(kids).  The n-th execution of node `n` is attempt n.
+    Returns v + sum(kids).  `fail` lists the attempt numbers *of one invocation*
+    that raise (every new invocation of the node starts again at attempt 1).
     """
     node = str(spec.get("n", "?"))
-    ATTEMPTS[node] = attempt = ATTEMPTS.get(node, 0) + 1
+    attempt = _attempt("prog", node)
     _probe("enter", "prog", (node, attempt))
     try:
         _work(float(spec.get("work", 0) or 0))
@@ -138,14 +150,19 @@ def keyed(key: Any, other: Any = 0, work: float = 0.0) -> Any:
         _probe("exit", "keyed", (key, other))
 
 
-def keyed2(a: Any, b: Any = 0, c: Any = 0, work: float = 0.0) -> Any:
-    """Three-argument variant (key argument subsets)."""
-    _probe("enter", "keyed2", (a, b, c))
+def keyed2(a: Any, b: Any = 0, c: Any = 0, work: float = 0.0, retry: int = 0) -> Any:
+    """Three-argument variant (key argument subsets); the first `retry`
+    executions of one invocation raise RetryError after the work."""
+    inv = _inv_id("keyed2") or f"{a}.{b}.{c}"
+    ATTEMPTS[inv] = attempt = ATTEMPTS.get(inv, 0) + 1
+    _probe("enter", "keyed2", (a, b, c, attempt))
     try:
         _work(work)
+        if attempt <= retry:
+            raise RetryError()
         return [a, b, c]
     finally:
-        _probe("exit", "keyed2", (a, b, c))
+        _probe("exit", "keyed2", (a, b, c, attempt))
 
 
 VALUES: dict[str, Any] = {}  # token -> python value / exception to return or raise
@@ -174,3 +191,41 @@ def echo(**kwargs: Any) -> Any:
 def sig(a: Any, b: Any = 2, *, c: Any = 3, d: Any = None) -> Any:
     """A signature with defaults and keyword-only parameters (call spellings)."""
     return [a, b, c, d]
+
+
+# ----------------------------------------------------------------------------- direct-task flavours (C19)
+DIRECT: dict[int, dict[str, Any]] = {}  # id(app) -> {"dprog": wrapper, "dsum": wrapper}
+
+
+def dprog(spec: dict) -> int:
+    """Like `prog`, but sub-programs are called through the direct-task wrapper
+    (which returns the plain value)."""
+    node = str(spec.get("n", "?"))
+    attempt = _attempt("dprog", node)
+    _probe("enter", "dprog", (node, attempt))
+    try:
+        fails = spec.get("fail") or []
+        if attempt in fails:
+            raise _make_exc(spec.get("exc", "retry"), node, attempt)
+        call = DIRECT[id(_app())]["dprog"]
+        total = int(spec.get("v", 0))
+        for k in spec.get("kids") or []:
+            total += call(k)
+        return total
+    finally:
+        _probe("exit", "dprog", (node, attempt))
+
+
+def dleaf(spec: dict) -> int:
+    """Leaf body of the parallel direct task: returns its own value."""
+    node = str(spec.get("n", "?"))
+    attempt = _attempt("dleaf", node)
+    fails = spec.get("fail") or []
+    if attempt in fails:
+        raise _make_exc(spec.get("exc", "retry"), node, attempt)
+    return int(spec.get("v", 0))
+
+
+def dleaf_split(args: dict) -> list:
+    """parallel_func of the direct parallel task: one call per kid."""
+    return [(k,) for k in args["spec"].get("kids") or []]
